@@ -768,7 +768,10 @@ impl ProxyServer {
 
         const MAX_ERROR_DETAILS_LEN: usize = 4096; // 4KB
         if error_details.len() > MAX_ERROR_DETAILS_LEN {
-            error_details.truncate(MAX_ERROR_DETAILS_LEN);
+            let keep =
+                misc_helpers::truncate_at_char_boundary(&error_details, MAX_ERROR_DETAILS_LEN)
+                    .len();
+            error_details.truncate(keep);
         }
 
         let summary = ProxySummary {
